@@ -67,11 +67,14 @@ type leafDef struct {
 	// untagged: Go field names and their decoded words
 	goPath  []string
 	goWords [][]string
-	env     string
-	envAl   string
-	flag    string
-	flagAl  string
-	set     func(cfg any, v value)
+	// the leaf lives in an embedded struct: its Go type name and words
+	embedName  string
+	embedWords []string
+	env        string
+	envAl      string
+	flag       string
+	flagAl     string
+	set        func(cfg any, v value)
 }
 
 func (l *leafDef) hasAlias() bool { return l.aliasTag != "" }
@@ -180,12 +183,35 @@ func newConfig(name string) any {
 		return &PlainCfg{DB: &PlainDB{}}
 	case "split":
 		return &SplitCfg{}
+	case "embed":
+		return &EmbedCfg{}
 	}
 	panic("unknown type " + name)
 }
 
-var typeDefs = map[string]*typeDef{"flat": &flatDef, "nest": &nestDef, "plain": &plainDef, "split": &splitDef}
-var typeNames = []string{"flat", "nest", "plain", "split"}
+var embedDef = typeDef{name: "embed", tagged: true, leaves: []leafDef{
+	{name: "CfgFile", kind: kString, path: pFull, tagPath: []string{"cfgfile"}, env: "CFGFILE", flag: "cfgfile",
+		set: func(c any, v value) { c.(*EmbedCfg).CfgFile = v.s }},
+	{name: "EmbedCommon.Region", kind: kString, tagPath: []string{"region"}, embedName: "EmbedCommon", embedWords: []string{"embed", "common"},
+		env: "REGION", flag: "region",
+		set: func(c any, v value) { c.(*EmbedCfg).Region = v.s }},
+	{name: "EmbedCommon.Replicas", kind: kInt, rule: rNonNeg, tagPath: []string{"replicas"}, embedName: "EmbedCommon", embedWords: []string{"embed", "common"},
+		env: "REPLICAS", flag: "replicas",
+		set: func(c any, v value) { c.(*EmbedCfg).Replicas = int(v.i) }},
+	{name: "EmbedCommon.Zones", kind: kSet, tagPath: []string{"zones"}, embedName: "EmbedCommon", embedWords: []string{"embed", "common"},
+		env: "ZONES", flag: "zones",
+		set: func(c any, v value) { c.(*EmbedCfg).Zones = set(nil, v.elems) }},
+	{name: "EmbedCommon.Linger", kind: kDur, tagPath: []string{"linger"}, embedName: "EmbedCommon", embedWords: []string{"embed", "common"},
+		env: "LINGER", flag: "linger",
+		set: func(c any, v value) { c.(*EmbedCfg).Linger = v.d }},
+	{name: "Title", kind: kString, tagPath: []string{"title"}, env: "TITLE", flag: "title",
+		set: func(c any, v value) { c.(*EmbedCfg).Title = v.s }},
+	{name: "Rank", kind: kInt, rule: rPositive, tagPath: []string{"rank"}, env: "RANK", flag: "rank",
+		set: func(c any, v value) { c.(*EmbedCfg).Rank = int(v.i) }},
+}}
+
+var typeDefs = map[string]*typeDef{"flat": &flatDef, "nest": &nestDef, "plain": &plainDef, "split": &splitDef, "embed": &embedDef}
+var typeNames = []string{"flat", "nest", "plain", "split", "embed"}
 
 // ----------------------------------------------------------------------------
 // Values by construction.  gen identifies the origin of a value:
@@ -280,9 +306,32 @@ func (l *leafDef) lit(v value) string {
 
 // fileKey is the key path of the leaf in a config file of the given format.
 // enc is "" (no FileFieldNameEncoder), "snake" or "kebab" (PlainCfg only).
-func (l *leafDef) fileKey(format, enc string, alias bool) []string {
+// flatten is Params.FlattenAnonymousFields.
+//
+// Leaves of an embedded (anonymous, untagged) struct - layout read off the
+// unmodified tree: without an encoder JSON and Cue promote them to the level
+// of the embedding struct, yaml.v2 nests them under the lower-cased type name
+// unless FlattenAnonymousFields promotes them, go-toml nests them under the
+// type name; with a FileFieldNameEncoder the embedded field gets a tag made of
+// its type name's words, so every format nests them under that name - except
+// YAML with FlattenAnonymousFields, which still promotes.
+func (l *leafDef) fileKey(format, enc string, flatten, alias bool) []string {
 	if l.tagPath != nil {
-		k := append([]string(nil), l.tagPath...)
+		var k []string
+		if l.embedName != "" {
+			switch {
+			case format == "yaml" && flatten:
+			case enc == "snake":
+				k = append(k, strings.Join(l.embedWords, "_"))
+			case enc == "kebab":
+				k = append(k, strings.Join(l.embedWords, "-"))
+			case format == "yaml":
+				k = append(k, strings.ToLower(l.embedName))
+			case format == "toml":
+				k = append(k, l.embedName)
+			}
+		}
+		k = append(k, l.tagPath...)
 		if alias && l.aliasTag != "" {
 			k[len(k)-1] = l.aliasTag
 		}
@@ -380,7 +429,9 @@ func emitJSON(b *strings.Builder, n *node, depth int) {
 func emitYAML(b *strings.Builder, n *node, depth int) {
 	ind := strings.Repeat("  ", depth)
 	for _, k := range n.kids {
-		if k.isTable() {
+		if k.isTable() && len(k.kids) == 0 {
+			b.WriteString(ind + k.key + ": {}\n")
+		} else if k.isTable() {
 			b.WriteString(ind + k.key + ":\n")
 			emitYAML(b, k, depth+1)
 		} else {
